@@ -170,7 +170,7 @@ def _sum_range(rng: ast.Call) -> ast.AST:
 
 @_simplify_math
 def _sum_constants(values: Sequence[ast.AST]) -> ast.AST:
-    expr = " + ".join(core.unparse(node).strip() for node in values)
+    expr = " + ".join(f"({core.unparse(node).strip()})" for node in values)
     return core.parse(expr)
 
 
